@@ -67,8 +67,8 @@ CLAIMED.update({
   "C10": ("dsim+tsim", "deterministic simulation: shuttle-scheduled waker threads against an Executor in a real loop + single-threaded executor/stream histories, history oracles", "exploration",
           "tsim: 1-3 scripted futures (Pending m times, waker stashed), 1-3 threads waking them, optional removal of the executor while wakers are active; schedules at enqueue / notified-flag swap / eventfd write / flag clear / dequeue; oracle: every completed wake of a live task is followed by a poll, polls and drops only on the loop thread, each output exactly once, after the executor is dropped every future is dropped and schedule() is refused. dsim: schedule from callbacks and futures, 1023/1024/1025/2049 runnable tasks, drop with queued/finished/pending tasks, StreamSource item order / single None / removal.",
           "Known finding F12 (wake racing Executor::drop leaks the future) is reported as KNOWN-FINDING. Interleavings inside async-task are atomic steps.", "3/C10"),
-  "C11": ("tsim", "deterministic simulation: shuttle-scheduled stop()/wakeup()/waker.wake() threads against run() and block_on() with the real poller notifier, history oracle", "exploration",
-          "The loop thread runs run(None) or block_on(future); 1-3 threads issue wakeup(), stop() and waker wakes at every point of the loop thread's progress (flag checks, entering/leaving the wait, polling the future); the wait hook never blocks the OS thread: it consults the real eventfd counter of polling's notifier and the real epoll each round and yields, and declares the loop stuck after 3000 empty rounds with fair yielding. Oracle: never stuck after a completed wakeup / stop+wakeup / wake; run returns Ok only after a stop began; at most one new wait after stop();wakeup() completed; block_on returns Some iff the future returned Ready, None only after a stop, every wake followed by a poll.",
+  "C11": ("dsim+tsim", "deterministic simulation: shuttle-scheduled stop()/wakeup()/waker.wake() threads against run() and block_on() with the real poller notifier, history oracle; single-threaded run()/block_on() histories", "exploration",
+          "dsim: run(timeout) with a stop requested from the per-iteration closure after k iterations and block_on(future) with self-waking (yield pattern) and externally woken futures, mixed with every other operation; each iteration is checked like a dispatch, run must return after exactly the requested iteration, block_on must poll after every wake and return Some/None correctly. tsim: The loop thread runs run(None) or block_on(future); 1-3 threads issue wakeup(), stop() and waker wakes at every point of the loop thread's progress (flag checks, entering/leaving the wait, polling the future); the wait hook never blocks the OS thread: it consults the real eventfd counter of polling's notifier and the real epoll each round and yields, and declares the loop stuck after 3000 empty rounds with fair yielding. Oracle: never stuck after a completed wakeup / stop+wakeup / wake; run returns Ok only after a stop began; at most one new wait after stop();wakeup() completed; block_on returns Some iff the future returned Ready, None only after a stop, every wake followed by a poll.",
           "stop() issued before run() has reset its flag is outside the property. polling's notify/wait are real code.", "3/C11"),
 })
 
